@@ -120,3 +120,54 @@ Proof.
     + cbn in Hn. apply andb_true_iff in Hn as [_ Hc]. now apply IHr.
 Qed.
 
+
+(* ---- the leaves of a well-formed tree spell the slice of its range ---- *)
+Lemma firstn_add {A} (l : list A) : forall m k, firstn (m + k) l = firstn m l ++ firstn k (skipn m l).
+Proof.
+  induction l as [|x l IH]; intros m k.
+  - now rewrite skipn_nil, !firstn_nil.
+  - destruct m as [|m]; [reflexivity|]. cbn. now rewrite IH.
+Qed.
+
+Lemma slice_app src a b c : a <= b -> b <= c -> slice src a b ++ slice src b c = slice src a c.
+Proof.
+  intros H1 H2. unfold slice.
+  replace (c - a) with ((b - a) + (c - b)) by lia.
+  rewrite firstn_add. f_equal. rewrite skipn_skipn. do 2 f_equal. lia.
+Qed.
+
+Lemma slice_empty src a : slice src a a = [].
+Proof. unfold slice. now rewrite Nat.sub_diag. Qed.
+
+Lemma chain_le relax src : forall l a b, Forall (WF relax src) l -> chain a b l -> a <= b.
+Proof.
+  induction l as [|t r IH]; intros a b Hall Hc; cbn in Hc; [lia|].
+  destruct Hc as [Hf Hr]. inversion Hall as [|? ? Wt Wr]; subst.
+  specialize (IH _ _ Wr Hr). destruct Wt; cbn in *. lia.
+Qed.
+
+Lemma leaves_chain relax src : forall l a b,
+  Forall (WF relax src) l ->
+  Forall (fun t => leaves t = slice src (t_from t) (t_to t)) l ->
+  chain a b l -> flat_map leaves l = slice src a b.
+Proof.
+  induction l as [|t r IH]; intros a b Hw Hl Hc; cbn in *.
+  - subst. now rewrite slice_empty.
+  - destruct Hc as [Hf Hr]. inversion Hw as [|? ? Wt Wr]; subst. inversion Hl as [|? ? Lt Lr]; subst.
+    rewrite Lt, (IH _ _ Wr Lr Hr). apply slice_app.
+    + destruct Wt; cbn; lia.
+    + eapply chain_le; eauto.
+Qed.
+
+Lemma leaves_slice relax src : forall t, WF relax src t -> leaves t = slice src (t_from t) (t_to t).
+Proof.
+  fix IH 2. intros t H. destruct H as [k a f e x ch Hfe Hel Hx Hch Hall].
+  destruct ch as [|c0 cr].
+  - cbn in *. exact Hx.
+  - cbn [t_from t_to]. change (leaves (T k a f e x (c0 :: cr))) with (flat_map leaves (c0 :: cr)).
+    apply (leaves_chain relax); auto; [|apply Hch; congruence].
+    clear - IH Hall. induction Hall as [|c1 cr' H1 Hr IHr]; constructor; auto.
+Qed.
+
+Lemma check_C01_complete src t errs : Spec_C01 src t errs -> wfb false src t = true.
+Proof. intros [W _]. now apply wfb_complete. Qed.
